@@ -374,10 +374,10 @@ class MultiplyOperator(Operator):
         cn(3).element([ 1.-0.j,  0.-1.j,  1.+1.j])
         """
         if self.__domain_is_field:
-            if isinstance(self.domain, RealNumbers):
+            if isinstance(self.domain, (RealNumbers, ComplexNumbers)):
+                # <t * v, y> = t * <v, y> = t * conj(<y, v>), hence the
+                # adjoint is y --> <y, v> also in the complex case
                 return InnerProductOperator(self.multiplicand)
-            elif isinstance(self.domain, ComplexNumbers):
-                return InnerProductOperator(self.multiplicand.conjugate())
             else:
                 raise NotImplementedError(
                     'adjoint not implemented for domain{!r}'
